@@ -112,6 +112,18 @@ fn root_text(epoch: u32, twice: bool, code: u32) -> String {
     }
 }
 
+/// The second root: in one variant it imports the same provider as `root.zy`, so that analyses of the two roots on
+/// different threads look the provider's companion up for the first time concurrently (reader against reader on the
+/// shared file table; analyses of ONE root never do, because salsa runs a query once and lets the others wait).
+fn other_text(epoch: u32, imports: bool, code: u32) -> String {
+    let p = MiniPrelude::core().text();
+    if imports {
+        format!("{p}do s <- ! to_string (@(import(\"a{epoch}.zy\")));\n! write_line s {{ ! exit {code} }}\n")
+    } else {
+        format!("{p}! exit {code}\n")
+    }
+}
+
 /// One edit: (file name, new overlay text or None = clear_overlay)
 fn next_edit(rng: &mut Rng, round: u32, epoch: u32, state: &State) -> (String, Option<String>) {
     let p = MiniPrelude::core().text();
@@ -126,7 +138,7 @@ fn next_edit(rng: &mut Rng, round: u32, epoch: u32, state: &State) -> (String, O
                 (companion, Some((*rng.pick(&["@(intrinsic(i64))", "@(intrinsic(string))", "(@(intrinsic(i64))", "-- signature\n@(intrinsic(i64))\n"])).to_string()))
             }
         }
-        | 7 => ("other.zy".into(), Some(format!("{p}! exit {}\n", round % 200))),
+        | 7 => ("other.zy".into(), Some(other_text(epoch, rng.chance(2, 3), round % 200))),
         | 8 => ("a-unrelated.zy".into(), Some(format!("{}", round))),
         | _ => ("root.zy".into(), Some(root_text(epoch, rng.chance(1, 3), round % 200))),
     }
@@ -272,7 +284,7 @@ fn storm(seed: u64, index: u64, rounds: u32) -> StormReport {
     let mut problems: Vec<(String, serde_json::Value)> = Vec::new();
     let mut jobs_sent = 0u64;
     // initial contents
-    for (name, text) in [("root.zy".to_string(), root_text(0, false, 0)), ("a0.zy".to_string(), "1000".to_string()), ("other.zy".to_string(), format!("{}! exit 0\n", MiniPrelude::core().text()))] {
+    for (name, text) in [("root.zy".to_string(), root_text(0, false, 0)), ("a0.zy".to_string(), "1000".to_string()), ("other.zy".to_string(), other_text(0, true, 0))] {
         let _ = session.set_overlay(dir.join(&name), text.clone());
         state.insert(name, text);
     }
@@ -313,6 +325,13 @@ fn storm(seed: u64, index: u64, rounds: u32) -> StormReport {
             let _ = session.set_overlay(dir.join("root.zy"), text.clone());
             state.insert("root.zy".into(), text.clone());
             history.push((round, "root.zy".into(), Some(text)));
+            if rng.chance(2, 3) {
+                // the other root switches over as well: both will probe the new names for the first time
+                let text = other_text(epoch, true, (round + 1) % 200);
+                let _ = session.set_overlay(dir.join("other.zy"), text.clone());
+                state.insert("other.zy".into(), text.clone());
+                history.push((round, "other.zy".into(), Some(text)));
+            }
             follow_up = rng.chance(1, 2);
         } else {
             let (name, text) = if follow_up {
@@ -342,7 +361,7 @@ fn storm(seed: u64, index: u64, rounds: u32) -> StormReport {
         }
         let k = 1 + rng.below(8);
         for _ in 0..k {
-            let job = Job { snapshot: session.snapshot(), round, query: *rng.pick(&QUERIES), other_root: rng.chance(1, 5) };
+            let job = Job { snapshot: session.snapshot(), round, query: *rng.pick(&QUERIES), other_root: rng.chance(2, 5) };
             jobs_sent += 1;
             if job_tx.send(job).is_err() {
                 break;
